@@ -43,3 +43,28 @@ Theorem C20_literal_comparisons_no_match : forall vd ty id se,
   validate_entry vd (Some (VOpaque ty id se)) = Some None.
 Proof. intros vd ty id se. destruct vd; reflexivity. Qed.
 Print Assumptions C20_literal_comparisons_no_match.
+
+(* From the path text (FiltChainAddr.v): a value of a foreign Go type is a leaf for every path of steps and filters — as
+   the whole document it is selected by nothing (every such path fails on it), whatever its type, identity or
+   self-equality; as a member or element it is returned as it is by the steps that reach it (C01_filter_retrieval:
+   navigation copies the value reached). *)
+From JP Require Import Json Text Tree Grammar Actions KeyDefs ChainParse ChainAddr FiltChain FiltAddr FiltChainAddr.
+From Coq Require Import List. Import ListNotations.
+Lemma opaque_reaches_nothing parse_float x r t i s l : nav_allf parse_float (x :: r) (l, VOpaque t i s) = [].
+Proof.
+  cbn [nav_allf]. assert (E : nav1f parse_float x (l, VOpaque t i s) = []); [|rewrite E; reflexivity].
+  destruct x as [[k|k]|i0|i0 o lit|i0]; cbn [nav1f nav1r navf navp fst snd]; try reflexivity.
+  destruct k; reflexivity.
+Qed.
+Theorem C20_foreign_root_from_text : forall cfg parse_float regex_ok ffun afun regex_match,
+  (forall f v w, small v -> ffun f v = Some w -> small w) ->
+  (forall f l w, Forall small l -> afun f l = Some w -> small w) ->
+  forall x r t i s st, forallb fstep_ok (x :: r) = true -> forallb (fstep_okp parse_float) (x :: r) = true -> ok st ->
+  exists tr e, parse_with cfg parse_float regex_ok jsonpath_grammar (fchain_path (x :: r)) = ParseOk tr /\
+               fst (eval_run ffun afun regex_match tr (VOpaque t i s) st) = OErr e.
+Proof.
+  intros cfg parse_float regex_ok ffun afun regex_match Hf Ha x r t i s st Hs Hp Hok.
+  destruct (fchain_retrieval cfg parse_float regex_ok ffun afun regex_match Hf Ha x r (VOpaque t i s) st Hs Hp I Hok) as (tr & Ht & H).
+  rewrite opaque_reaches_nothing in H. destruct H as [e He]. exists tr, e. split; assumption.
+Qed.
+Print Assumptions C20_foreign_root_from_text.
